@@ -542,7 +542,11 @@ Section Reader.
   | FChk (k : Z)       (* get_remaining() checked by the type's constructor: chk k *)
   | FNameX             (* as FNameU; the name keeps its case in the canonical form *)
   | FMax16 (m : Z)     (* a 16-bit field whose value the constructor requires to be <= m *)
-  | FTxt.              (* one or more <character-string>s up to the end *)
+  | FTxt               (* one or more <character-string>s up to the end *)
+  | FGw (n i : nat) (mk : Z).
+                       (* n header octets, then the gateway / relay selected by (octet i of the header) & mk:
+                          0 nothing, 1 an IPv4 address, 2 an IPv6 address, 3 a name (get_name(origin); never
+                          compressed, case kept in the canonical form); dns.rdtypes.util.Gateway *)
 
   (* type codes that have a specific codec class under dns/rdtypes/ANY resp. IN (checked against
      the directory listing by the harness on every run) *)
@@ -641,6 +645,8 @@ Section Reader.
     (* NSEC3PARAM; URI *)
     else if rdtype =? 51 then Some [FFix 4; FCnt8]
     else if rdtype =? 256 then Some [FFix 4; FRest1]
+    (* AMTRELAY: precedence, D bit + relay type, relay *)
+    else if rdtype =? 260 then Some [FGw 2 1 127]
     else if zmem rdtype any_types then None
     else if rdclass =? cIN then
       if rdtype =? 1 then Some [FFix 4]
@@ -654,6 +660,8 @@ Section Reader.
       (* WKS; NAPTR *)
       else if rdtype =? 11 then Some [FFix 5; FRest]
       else if rdtype =? 35 then Some [FFix 4; FCnt8; FCnt8; FCnt8; FNameC]
+      (* IPSECKEY: precedence, gateway type, algorithm, gateway, key *)
+      else if rdtype =? 45 then Some [FGw 3 1 255; FRest]
       else if zmem rdtype in_types then None
       else Some [FRest]
     else if (rdclass =? 3) && (rdtype =? 1) then Some [FNameX; FFix 2]     (* dns.rdtypes.CH.A (repo commit 7eaebe9) *)
@@ -701,6 +709,18 @@ Section Reader.
         do b <- rd_bytes endp cur 2;
         if v >? mx then Lib eFormError      (* ValueError from Rcode.make, wrapped *)
         else dec_fields r origin endp (cur + 2) (PB b :: acc)
+    | FGw n i mk :: r =>
+        do b <- rd_bytes endp cur n;
+        let t := Z.land (nth i b 0) mk in
+        if t =? 0 then dec_fields r origin endp (cur + n) (PB b :: acc)
+        else if (t =? 1) || (t =? 2) then
+          let k := if t =? 1 then 4%nat else 16%nat in
+          do a <- rd_bytes endp (cur + n) k;
+          dec_fields r origin endp (cur + n + k) (PB a :: PB b :: acc)
+        else if t =? 3 then
+          do nc <- get_name origin endp (cur + n);
+          dec_fields r origin endp (snd nc) (PX (fst nc) :: PB b :: acc)
+        else Lib eFormError
     | FTxt :: r =>
         do c <- txt_loop (S (endp - cur)) endp cur 0;
         if Nat.eqb c 0 then Lib eFormError      (* ValueError, wrapped *)
